@@ -758,6 +758,18 @@ def fam_d(b, thorough):
             emit(kind, "setter", at, tag, sf, [("x", P("u8"))], ("res", ("unit",), N("En")))
             emit(kind, "setter", at, tag, sf, [("x", P("u8"))], ("res", ("unit",), ("unit",)))
             emit(kind, "setter", at, tag, None, [("x", P("u8"))], None, extra_feats=("static_accessors",))
+    # a getter and a setter of the SAME property on one type (backends fold the pair into one property), instance and static
+    for kind, gsf, ssf in (("opaque", "&self", "&mut self"), ("struct", "self", "self"), ("enum", "self", "self"), ("opaque", None, None), ("struct", None, None), ("enum", None, None)):
+        for pty in (P("u8"), N("En"), ("ref", False, ("str", "str"))):
+            if pty[0] == "ref" and gsf is not None and kind != "opaque":
+                continue
+            feats = () if gsf is not None else ("static_accessors",)
+            for gate in _gates("setter", feats):
+                name, td, ft = owner(kind)
+                gret = P("u8") if pty[0] == "ref" else pty
+                td["methods"].append('#[diplomat::attr(%s, getter = "foo")] pub fn get_foo(%s) -> %s { unimplemented!() }' % (gate, gsf or "", G.render(gret)))
+                b.add("d", types=[td], m=method(b.mname(), owner=name, okind=kind, selff=ssf, params=[("x", pty)], ret=None,
+                                                attr=(gate, 'setter = "foo"', "setter(name)+getter")), pos="setter")
     for kind, sf in (("opaque", "&self"), ("opaque", "&mut self"), ("struct", "self"), ("enum", "self")):
         emit(kind, "stringifier", "stringifier", "stringifier", sf, [("w", ("ref", True, ("write",)))], None)
         emit(kind, "stringifier", "stringifier", "stringifier", sf, [("w", ("ref", True, ("write",)))], ("res", ("unit",), N("En")))
